@@ -24,10 +24,10 @@ func runC20(ctx *Ctx) {
 	r := ctx.R
 	ops := c20ops()
 	bound := 2
-	vsched.MaxPerSite = 4
+	vsched.MaxPerSite, vsched.MaxPerFn = 4, 1
 	if ctx.Thorough {
 		bound = 3
-		vsched.MaxPerSite = 10
+		vsched.MaxPerSite, vsched.MaxPerFn = 10, 2
 	}
 	// the repository's NASDecode prints to stdout: keep the check's own stdout for verdict lines only
 	if devnull, err := os.OpenFile(os.DevNull, os.O_WRONLY, 0); err == nil {
@@ -67,6 +67,7 @@ func runC20(ctx *Ctx) {
 		r.Set("operation_groups", len(groups))
 		r.Set("preemption_bound", bound)
 		r.Set("yield_instances_per_site_and_thread", vsched.MaxPerSite)
+		r.Set("yield_instances_per_function_entry_and_thread", vsched.MaxPerFn)
 		if b, err := os.ReadFile(filepath.Join(report.BuildDir, "ovl20", "instrument.json")); err == nil {
 			var ins struct {
 				Mutated []string `json:"mutated"`
